@@ -8,17 +8,17 @@ from ..model import Undecided, walk_no_nested
 from .common import path_text
 
 EXPLANATION = (
-    "Ordering/counting rules over the enumerated paths of the four small functions that implement the event contract, evaluated for "
-    "every concrete driver element class (Number, Text, Switch, Light, BLOB). C14.WRITE: set_value constructs exactly one Write with the "
-    "requested value and raises it before any store; the assignment through the value property happens exactly once and only on the path "
-    "where prevent_default is false; the veto path stores and sends nothing. C14.SETTER: the value setter reads the previous value before "
-    "the store, runs the type check and check_value before it, stores check_value's result exactly once, publishes exactly one "
-    "to_set_message afterwards, and constructs/raises exactly one Change(previous, stored) on the path where they differ and none on the "
-    "other. C14.NOWRITE: Write is constructed nowhere but in set_value and nothing inlined from the setter calls set_value. C14.READ: the "
-    "getter raises Read before returning _value; emitters obtain the value through the property. C14.DISPATCH: raise_event looks handlers up "
-    "by the event's class, visits all, and per handler either creates a task of cb(event) (coroutine function) or calls cb(event). "
-    "C14.MSG: every driver-side set_value_from_message funnels into exactly one self.set_value(...). C14.ATTACH: Driver.__init__ attaches "
-    "the @on handlers; on() records one attachment per source."
+    'Ordering/counting rules over the enumerated paths of the four small functions that implement the event contract, evaluated for every '
+    'concrete driver element class (Number, Text, Switch, Light, BLOB). C14.WRITE: set_value constructs exactly one Write with the requested '
+    'value and raises it before any store; the assignment through the value property happens exactly once and only on the path where '
+    'prevent_default is false; the veto path stores and sends nothing. C14.SETTER: the value setter reads the previous value before the store, '
+    "runs the type check and check_value before it, stores check_value's result exactly once, publishes exactly one to_set_message afterwards, "
+    'and constructs/raises exactly one Change(previous, stored) on the path where they differ and none on the other. C14.NOWRITE: Write is '
+    'constructed nowhere but in set_value and nothing inlined from the setter calls set_value. C14.READ: the getter raises Read before returning '
+    "_value; emitters obtain the value through the property. C14.DISPATCH: raise_event looks handlers up by the event's class, visits all, and "
+    'per handler either creates a task of cb(event) (coroutine function) or calls cb(event). C14.MSG: every driver-side set_value_from_message '
+    'funnels into exactly one self.set_value(...). C14.ATTACH: Driver.__init__ attaches the @on handlers; @on is evaluated (a list of two '
+    'sources, then a second decoration with one source): one (source, event type) attachment per source, accumulated, the function returned.'
 )
 NOT_DECIDED = "counts over handler configurations and whole write sequences (they follow from the per-call rules, the composition is not mechanised); what user handlers do."
 ASSUMPTIONS = [
